@@ -606,6 +606,14 @@ func (x *Exec) trCall(e *SExpr, env *TrEnv) *Term {
 	case "substr":
 		as := args()
 		return mk("s.substr", SStr, as...)
+	case "elems":
+		// elems(s): the set of the elements of slice s (as an array elem -> Bool); the engine states how it evolves at
+		// empty literals and appends of functions with `option slice-elems`
+		v := x.trExpr(e.Args[0], env)
+		if !isSliceSort(v.Sort) {
+			specErr(e, "elems needs a slice")
+		}
+		return mk("elems_"+mangle(v.Sort), arraySort(x.u.sliceElem(v.Sort), SBool), v)
 	case "allocated":
 		return Select(x.getSt(env.st, "alloc", arraySort(SRef, SBool)), x.trExpr(e.Args[0], env))
 	case "fresh":
